@@ -37,6 +37,10 @@ def run_batches(jobs, timeout=1500):
                     "error": "batch produced no result: " + err.decode(errors="replace")[-1500:]}
     with ThreadPoolExecutor(max_workers=14) as ex:
         res = list(ex.map(one, jobs))
+    # a batch process that produced nothing (killed under memory / load pressure) is run once more, alone
+    for i, r in enumerate(res):
+        if r.get("error") and not r["runs"]:
+            res[i] = one(jobs[i])
     try:
         os.rmdir(d)
     except OSError:
